@@ -33,6 +33,9 @@ type c08bCase struct {
 	Deep bool `json:"deep,omitempty"`
 	// Min: minimizeDFA = true.
 	Min bool `json:"minimize,omitempty"`
+	// LeadT: alternatives that only match items starting with 'T' (so the alternatives that meet
+	// on the lookahead token 'F' are a subset of those that meet on 'T').
+	LeadT []bool `json:"leadT,omitempty"`
 }
 
 func c08bGen(t *rapid.T) c08bCase {
@@ -47,6 +50,7 @@ func c08bGen(t *rapid.T) c08bCase {
 	c.Min = rapid.IntRange(0, 2).Draw(t, "minimize") == 0
 	if rapid.IntRange(0, 3).Draw(t, "anySet") == 0 {
 		c.C = c08Gen(t) // any set, most are rejected by the compiler
+		c.drawLeads(t)
 		return c
 	}
 	// An ordered decision tree: level d tests predicate perm[d]; every leaf is an alternative whose
@@ -64,7 +68,33 @@ func c08bGen(t *rapid.T) c08bCase {
 		split(depth+1, append(path, c08Pred{In: perm[depth], Neg: !first}))
 	}
 	split(0, nil)
+	c.drawLeads(t)
 	return c
+}
+
+func (c *c08bCase) drawLeads(t *rapid.T) {
+	if c.C.M < 1 || rapid.IntRange(0, 2).Draw(t, "leads") != 0 {
+		return
+	}
+	c.LeadT = make([]bool, len(c.C.Alts))
+	for i := range c.LeadT {
+		c.LeadT[i] = rapid.IntRange(0, 2).Draw(t, "leadT") == 0
+	}
+}
+
+// leadT reports whether alternative alt only matches items whose first token is 'T'.
+func (c *c08bCase) leadT(alt int) bool { return alt < len(c.LeadT) && c.LeadT[alt] }
+
+// lead is the extra first token of an item decided as alternative alt: none without LeadT, 'T'
+// where the alternative demands it, else 'F' (the state in which fewer alternatives meet).
+func (c *c08bCase) lead(alt int) string {
+	switch {
+	case len(c.LeadT) == 0:
+		return ""
+	case c.leadT(alt):
+		return "T"
+	}
+	return "F"
 }
 
 // tail is what follows the bits and ';' of an item decided as alternative alt.
@@ -103,21 +133,35 @@ func (c *c08bCase) render(name string) string {
 		if c.Nested {
 			tail = strings.Repeat(" 'T'", i) + " ';'"
 		}
-		fmt.Fprintf(&sb, "%s(?= %s) Body%s -> Alt%d\n", sep, strings.Join(ps, " & "), tail, i)
+		body := "Body"
+		if c.leadT(i) {
+			body = "BodyT" // this alternative needs a 'T' as its first token
+		}
+		fmt.Fprintf(&sb, "%s(?= %s) %s%s -> Alt%d\n", sep, strings.Join(ps, " & "), body, tail, i)
 	}
-	sb.WriteString(";\n\nBody:\n   ")
+	// with LeadT every item starts with one extra token that no predicate looks at
+	lead := ""
+	if len(c.LeadT) > 0 {
+		lead = " Bit"
+	}
+	sb.WriteString(";\n\nBody:\n   " + lead)
 	for j := 0; j < c.C.M; j++ {
 		sb.WriteString(" Bit")
 	}
-	sb.WriteString(" ';' ;\n\nBit:\n    'T' | 'F' ;\n\n")
+	sb.WriteString(" ';' ;\n\n")
+	if len(c.LeadT) > 0 {
+		sb.WriteString("BodyT:\n    'T'" + strings.Repeat(" Bit", c.C.M) + " ';' ;\n\n")
+	}
+	sb.WriteString("Bit:\n    'T' | 'F' ;\n\n")
 	deepUsed := false
 	for j := 0; j < c.C.M; j++ {
+		skip := lead + strings.Repeat(" Bit", j)
 		if c.Deep && j <= c.C.M-3 {
 			deepUsed = true
-			fmt.Fprintf(&sb, "P%d:\n   %s TA Bit 'T'\n  |%s TB Bit 'F' ;\n\n", j, strings.Repeat(" Bit", j), strings.Repeat(" Bit", j))
+			fmt.Fprintf(&sb, "P%d:\n   %s TA Bit 'T'\n  |%s TB Bit 'F' ;\n\n", j, skip, skip)
 			continue
 		}
-		fmt.Fprintf(&sb, "P%d:\n   %s 'T' ;\n\n", j, strings.Repeat(" Bit", j))
+		fmt.Fprintf(&sb, "P%d:\n   %s 'T' ;\n\n", j, skip)
 	}
 	if deepUsed {
 		sb.WriteString("TA:\n    'T' ;\n\nTB:\n    'T' ;\n\n")
@@ -171,6 +215,9 @@ func c08bCheck(c c08bCase, res *batch.Result, run runFunc, r *ev.Recorder) *Fail
 			continue // zero or several conjunctions hold: the statement does not say what happens
 		}
 		var src strings.Builder
+		if l := c.lead(sat[0]); l != "" {
+			src.WriteString(l + " ")
+		}
 		for j := 0; j < m; j++ {
 			if asg&(1<<j) != 0 {
 				src.WriteString("T ")
@@ -207,13 +254,64 @@ func c08bCheck(c c08bCase, res *batch.Result, run runFunc, r *ev.Recorder) *Fail
 func TestC08B(t *testing.T) {
 	p := &batchProp[c08bCase]{
 		ID:        "C08",
-		Rule:      "generated code: the C08 generator's sets of 2..5 lookahead alternatives over 1..4 predicates, rendered as `Item: (?= P0 & !P1) Body -> Alt0 | ...` where predicate Pj is the nonterminal `Bit^j 'T'` (token j of the input is 'T') and Body is M bits and ';'; options cancellable, recursiveLookaheads, optimizeTables, tokenStream on/off, minimizeDFA in a third; half of the recursive cases recognise every item inside a lookahead first (`Wrap: (?= Chk) Item | (?= !Chk) Item ';' ';'; Chk: Item`, alternative i then ends in i extra 'T' and a ';': the decision code runs nested and a wrong nested decision makes Chk fail), a third are lalr(2) with predicates that need two tokens of lookahead themselves. Sets the compiler rejects are outside this test (the rejection rule is checked in process by TestC08). Every input of M bits is a truth assignment; for each assignment that satisfies exactly one conjunction the generated parser must accept and report that alternative's node. Non-trivial: an accepted set with >= 2 decided assignments; distinct by case JSON.",
+		Rule:      "generated code: the C08 generator's sets of 2..5 lookahead alternatives over 1..4 predicates, rendered as `Item: (?= P0 & !P1) Body -> Alt0 | ...` where predicate Pj is the nonterminal `Bit^j 'T'` (token j of the input is 'T') and Body is M bits and ';'; options cancellable, recursiveLookaheads, optimizeTables, tokenStream on/off, minimizeDFA in a third; in a third of the cases items start with one extra token that no predicate looks at and a third of the alternatives demand a 'T' there (fewer alternatives meet on the lookahead token 'F' than on 'T'); the compiler's verdict is checked too (two different conjunctions that can hold together, or that order two predicates differently, must be rejected); half of the recursive cases recognise every item inside a lookahead first (`Wrap: (?= Chk) Item | (?= !Chk) Item ';' ';'; Chk: Item`, alternative i then ends in i extra 'T' and a ';': the decision code runs nested and a wrong nested decision makes Chk fail), a third are lalr(2) with predicates that need two tokens of lookahead themselves. Sets the compiler rejects are outside this test (the rejection rule is checked in process by TestC08). Every input of M bits is a truth assignment; for each assignment that satisfies exactly one conjunction the generated parser must accept and report that alternative's node. Non-trivial: an accepted set with >= 2 decided assignments; distinct by case JSON.",
 		Quick:     64, Thorough: 1280, BatchSize: 64,
 		Gen:       c08bGen,
 		Unit: func(c c08bCase, name string) (batch.Unit, bool) {
 			return batch.Unit{Name: name, TM: c.render(name), Adapter: laAdapter}, true
 		},
 		Check: c08bCheck,
+		// The compiler's verdict on the set (all alternatives meet in one state here): conjunctions
+		// that can hold together, or that mention two predicates in opposite orders (no global
+		// order exists), have to be rejected.
+		OnGenerated: func(c c08bCase, res *batch.Result, r *ev.Recorder) *Failure {
+			if res.CompileErr != nil {
+				r.Excluded("grammar-rejected-by-compiler(conflicts etc.)")
+				return nil
+			}
+			alts := c.C.Alts
+			for i := range alts {
+				for j := i + 1; j < len(alts); j++ {
+					compatible := true
+					pos := map[int]int{}
+					for k, p := range alts[i].Preds {
+						pos[p.In] = k
+					}
+					last := -1
+					opposite := false
+					for _, q := range alts[j].Preds {
+						k, shared := pos[q.In]
+						if !shared {
+							continue
+						}
+						if alts[i].Preds[k].Neg != q.Neg {
+							compatible = false
+						}
+						if k < last {
+							opposite = true
+						}
+						last = max(last, k)
+					}
+					// the same conjunction twice is one lookahead nonterminal used by two rules (told
+					// apart by what follows), not two competing conditions
+					same := len(alts[i].Preds) == len(alts[j].Preds)
+					for _, q := range alts[j].Preds {
+						k, shared := pos[q.In]
+						same = same && shared && alts[i].Preds[k].Neg == q.Neg
+					}
+					if same {
+						continue
+					}
+					if compatible {
+						return failf("non-exclusive-accepted", "alternatives %d and %d can hold together but the compiler accepts the set; grammar:\n%s", i, j, c.render("g"))
+					}
+					if opposite {
+						return failf("inconsistent-order-accepted", "alternatives %d and %d mention two predicates in opposite orders but the compiler accepts the set; grammar:\n%s", i, j, c.render("g"))
+					}
+				}
+			}
+			return nil
+		},
 	}
 	p.run(t)
 }
